@@ -322,6 +322,10 @@ def run(ctx: Ctx) -> None:
     rep.floor("C10.R9", n9, 1)
 
     # ---- R6: markers set on the way to the user's function are released on every exit -------------------------------------
+    from .storerules import memory_readers_pure as _mrp
+    rep.rule("C10.R10", "reading the store never makes a blob present: the reading methods of the memory store change none of its tables (a failing function's key stays absent whatever is loaded afterwards)")
+    _n_mrp = _mrp(ctx, "C10.R10")
+    rep.floor("C10.R10", _n_mrp, 3)
     rep.rule("C10.R6", "a marker put into non-local state (closure / module container) before a call that leads to the user's function, and taken out "
                        "after it, is taken out on the exceptional exit too (try / finally)")
     ADD = {"append", "add", "insert", "setdefault", "update", "__setitem__", "appendleft", "push"}
